@@ -97,7 +97,7 @@ func (c13Sim) Gen(prop, tier string, r *rand.Rand) interface{} {
 			a.Kind = "abandoner"
 		default:
 			a.Kind = "badopen"
-			a.Hostile = pick(r, "short", "badheader", "dir", "rocreate", "shortbody", "shortbody")
+			a.Hostile = pick(r, "short", "badheader", "dir", "rocreate", "shortbody", "shortbody", "flock-eintr", "flock-enolck")
 			a.Sessions = int(between(r, 1, 2))
 			if prop == "C05" {
 				a.Kind, a.Hostile = "reader", ""
@@ -518,6 +518,33 @@ func c13BadOpen(e *Env, s *Sched, c *C13Case, a C13Actor, tag string, viol func(
 		}
 		_, err = wt.Open(p)
 		what = "Open of a file shorter than its header requires"
+	case "flock-eintr", "flock-enolck":
+		// a valid file; the lock request of this Open fails (interrupted system
+		// call, no locks available)
+		if db, cerr := c.Layout.create(p, wt.WithoutFlock()); cerr == nil {
+			db.Sync()
+			db.Close()
+		}
+		me := s.Current()
+		ferr := error(syscall.EINTR)
+		if a.Hostile == "flock-enolck" {
+			ferr = syscall.ENOLCK
+		}
+		fired := false
+		s.FlockFault = func(g *G, fd int) error {
+			if g == me && !fired {
+				fired = true
+				return ferr
+			}
+			return nil
+		}
+		_, err = wt.Open(p)
+		s.FlockFault = nil
+		if !fired {
+			e.Skip("flock-fault-not-reached")
+			return
+		}
+		what = "Open whose lock request failed with " + ferr.Error()
 	case "dir":
 		os.Mkdir(p, 0o755)
 		_, err = wt.Open(p, wt.WithOpenFileFlag(os.O_RDONLY))
@@ -549,6 +576,15 @@ func c13BadOpen(e *Env, s *Sched, c *C13Case, a C13Actor, tag string, viol func(
 	}
 	e.Probe("failed-open-probed/" + a.Hostile)
 	// a later Open of the same path must not be blocked by the failed one
+	if a.Hostile == "flock-eintr" || a.Hostile == "flock-enolck" {
+		// the same path opens normally afterwards
+		db2, oerr := wt.Open(p)
+		if oerr != nil {
+			viol("C13.later-open", "Open after an Open whose lock request had failed: %v", oerr)
+			return
+		}
+		db2.Close()
+	}
 	if a.Hostile == "short" || a.Hostile == "badheader" || a.Hostile == "shortbody" {
 		q := p + ".valid"
 		db, cerr := c.Layout.create(q)
